@@ -186,7 +186,7 @@ def gen_cases(rng, tier):
         out.append(gen_history(rng, {"big"} if i % 4 == 1 else set()))
     out.append(gen_many_txns(rng, 300))
     out.append(gen_many_txns(rng, 9000))
-    return out
+    return [G.tag_key_reuse(c) for c in out]
 
 
 class C09(Spec):
